@@ -24,6 +24,7 @@ from batchie.models.sparse_combo import SparseDrugComboMCMCSample  # noqa: E402
 from batchie.models.sparse_combo_interaction import SparseDrugComboInteractionMCMCSample  # noqa: E402
 
 PROP = "C03"
+EPILOGUE_ITEMS = 2  # items are heavy (whole BFS each)
 LEVEL = "model_checking"
 ENGINE = "E2-choice-tree+E3-state-bfs"
 TECHNIQUE = "explicit-state BFS over lifecycle histories on real Screens, from every outcome of the hold-out split (full answer tree)"
